@@ -32,6 +32,11 @@ FIELD_NAMES = ["class", "from", "in", "None", "camelCase", "PascalCase", "snake_
                "model_fields", "schema", "construct", "validate", "id", "type", "match", "self", "cls", "Field", "Optional", "List", "Any", "BaseModel", "Kind", "x__y"]
 
 
+def _all_field_names():
+    from mc.corpus2 import name_catalogue
+    return FIELD_NAMES + [n for n in name_catalogue() if n not in FIELD_NAMES]
+
+
 def build_schema_text():
     parts = ["enum Kind { A B in }", "enum Soft { type match case }", "scalar Blob", "input Leaf { v: Int s: String }", "input WithEnum { k: Kind }", "input WithList { xs: [Int!] }",
              "input Outer { leaf: Leaf }", "input Inner { a: Int = 1 k: Kind = A }", "input Rec { id: ID! next: Rec kids: [Rec!] }",
@@ -50,7 +55,7 @@ def build_schema_text():
         n = f"DC_{dn}"
         parts.append(f"input {n} {{ camelCaseField: {t} = {lit} other: Int }}")
         names.append(n)
-    for i, fn in enumerate(FIELD_NAMES):
+    for i, fn in enumerate(_all_field_names()):
         n = f"N_{i}"
         parts.append(f"input {n} {{ {fn}: Int other: Int req2: String! }}")
         names.append(n)
@@ -216,7 +221,7 @@ def case_features(name):
         f.add(f"default:{name[3:]}")
         f.add("aliased_field")
     elif name.startswith("N_"):
-        f.add(f"fieldname:{FIELD_NAMES[int(name[2:])]}")
+        f.add(f"fieldname:{_all_field_names()[int(name[2:])]}")
     else:
         f.add(f"input:{name}")
     return f
